@@ -56,27 +56,10 @@ def asBool : Val → Bool
   | .bool b => b
   | _ => false
 
-/-- the four ordering `case`s share their type switch; `fi fs` are the float and string comparisons -/
-def ordering (fi : Int → Int → Bool) (ff : Flt → Flt → Bool) (fs : Bytes → Bytes → Bool) (l r : Val) : Val :=
-  match l with
-  | .int a =>
-    match r with
-    | .int b => .bool (fi a b)
-    | .flt b => .bool (ff (Flt.ofInt a) b)
-    | _ => .bool false
-  | .flt a =>
-    match r with
-    | .int b => .bool (ff a (Flt.ofInt b))
-    | .flt b => .bool (ff a b)
-    | _ => .bool false
-  | .str a =>
-    match r with
-    | .str b => .bool (fs a b)
-    | _ => .bool false
-  | _ => .bool false
-
-/-- with the int/float deviation repaired the int is compared by its exact value -/
-def orderingX (d : Dev) (fi : Int → Int → Bool) (ff : Flt → Flt → Bool) (fs : Bytes → Bytes → Bool) (l r : Val) : Val :=
+/-- the four ordering `case`s share their type switch; `fi ff fs` are the int, float and string
+comparisons. With the int/float deviation repaired (`d.viaF64 = false`) the int is compared by its
+exact value instead of `float64(tl)`. -/
+def ordering (d : Dev) (fi : Int → Int → Bool) (ff : Flt → Flt → Bool) (fs : Bytes → Bytes → Bool) (l r : Val) : Val :=
   match l with
   | .int a =>
     match r with
@@ -132,10 +115,10 @@ def evalOp (d : Dev) (rx : RxEngine) (o : Op) (l r : Val) : Except Fault Val :=
         | .int b => .ok (.bool (!Flt.eq a (d.toF b)))
         | _ => .ok (.bool (!d.neqFlt))      -- `tr, ok := right.(int64); sstack[i] = ok && …`
       | _ => .ok (.bool true)
-  | .lt => .ok (orderingX d (fun a b => decide (a < b)) Flt.lt bytesLt l r)
-  | .gt => .ok (orderingX d (fun a b => decide (b < a)) (fun a b => Flt.lt b a) (fun a b => bytesLt b a) l r)
-  | .lte => .ok (orderingX d (fun a b => decide (a ≤ b)) Flt.le (fun a b => !bytesLt b a) l r)
-  | .gte => .ok (orderingX d (fun a b => decide (b ≤ a)) (fun a b => Flt.le b a) (fun a b => !bytesLt a b) l r)
+  | .lt => .ok (ordering d (fun a b => decide (a < b)) Flt.lt bytesLt l r)
+  | .gt => .ok (ordering d (fun a b => decide (b < a)) (fun a b => Flt.lt b a) (fun a b => bytesLt b a) l r)
+  | .lte => .ok (ordering d (fun a b => decide (a ≤ b)) Flt.le (fun a b => !bytesLt b a) l r)
+  | .gte => .ok (ordering d (fun a b => decide (b ≤ a)) (fun a b => Flt.le b a) (fun a b => !bytesLt a b) l r)
   | .or => .ok (.bool (asBool l || asBool r))
   | .and => .ok (.bool (asBool l && asBool r))
   | .not => .ok (.bool (!asBool l))
